@@ -202,9 +202,9 @@ func parseCase(line string) (Case, error) {
 func nVariants(dk byte) int {
 	switch dk {
 	case 'c':
-		return 8
+		return 12
 	case 'i':
-		return 6
+		return 9
 	default:
 		return 6
 	}
